@@ -42,6 +42,18 @@ def _use_position_simple(stmt, use):
     return False
 
 
+def _expand_ifexp(st):
+    """`T = A if c else B` -> `if c: T = A else: T = B`, same for `return`; nested conditional expressions in the arms are expanded too"""
+    if isinstance(st, (ast.Assign, ast.Return)) and isinstance(st.value, ast.IfExp) \
+            and (isinstance(st, ast.Return) or (len(st.targets) == 1 and isinstance(st.targets[0], ast.Name))):
+        def arm(v):
+            if isinstance(st, ast.Return):
+                return _expand_ifexp(ast.copy_location(ast.Return(value=v), v))
+            return _expand_ifexp(ast.copy_location(ast.Assign(targets=[ast.Name(id=st.targets[0].id, ctx=ast.Store())], value=v, lineno=st.lineno), v))
+        return ast.copy_location(ast.If(test=st.value.test, body=[arm(st.value.body)], orelse=[arm(st.value.orelse)]), st)
+    return st
+
+
 def canonicalise(tree):
     """Behaviour-preserving normalisation applied to every module before any rule looks at it, so that rules see one idiom
     instead of two.  A single-definition, single-use temporary `t = <expr>` that is consumed by the very next simple statement
@@ -117,13 +129,7 @@ def canonicalise(tree):
             if not (isinstance(block, list) and block and isinstance(block[0], ast.stmt)):
                 continue
             for i, st in enumerate(block):
-                if isinstance(st, (ast.Assign, ast.Return)) and isinstance(st.value, ast.IfExp) \
-                        and (isinstance(st, ast.Return) or (len(st.targets) == 1 and isinstance(st.targets[0], ast.Name))):
-                    def arm(v, st=st):
-                        if isinstance(st, ast.Return):
-                            return ast.copy_location(ast.Return(value=v), v)
-                        return ast.copy_location(ast.Assign(targets=[ast.Name(id=st.targets[0].id, ctx=ast.Store())], value=v, lineno=st.lineno), v)
-                    block[i] = ast.copy_location(ast.If(test=st.value.test, body=[arm(st.value.body)], orelse=[arm(st.value.orelse)]), st)
+                block[i] = _expand_ifexp(st)
     # `T[k] = T[k] <op> e`  ->  `T[k] <op>= e`   (element stores: read, operate, write back -- the same three steps either way)
     for node in list(ast.walk(tree)):
         for field in ("body", "orelse", "finalbody"):
@@ -288,6 +294,9 @@ class Program:
         self._index()
         self._resolve_imports()
         self._resolve_bases()
+        # one canonical way to pass an argument (keywords continuing the positional prefix become positional), see sa/callnorm.py
+        from .callnorm import normalise_call_arguments
+        self.normalised_arguments = normalise_call_arguments(self)
         # private helpers that the rule set does not know are looked through (extract-method refactorings), see sa/inline.py
         from .inline import inline_unknown_helpers, known_helpers
         self.inlined = inline_unknown_helpers(self, known_helpers())
